@@ -1301,6 +1301,36 @@ theorem second_pass_wrong_scope_counterexample :
     ∧ (secondPass exDecls (fun cls _ => exDecls.scope cls) 3 [1, 2, 0]).get 1 = some [some 0] := by
   decide
 
+/-- the second pass with its two lookups swapped: the raw name in the final state of the scope
+first, the name as expanded at the class statement only as a fallback -/
+def finalOfSwapped (d : Decls) (sc o : Nat) : List (Option Nat) :=
+  List.zipWith (fun n (ie : Option Nat × Option Nat) =>
+      match ie.1 with
+      | some b => some b
+      | none =>
+        match d.resolve sc n with
+        | some b => some b
+        | none => ie.2)
+    (d.raw o) (List.zip (d.initial o) (d.expanded o))
+
+/-- `from pkg.a import Root; class Mid(Root): …; class Root: …` with `Root` unresolved when `Mid` is
+visited: class 1 = Mid (scope 1, base name 10), the expanded name leads to class 0 (`pkg.a.Root`),
+the final state of scope 1 binds name 10 to class 5 (the local `Root`). -/
+def exRebound : Decls where
+  scope := id
+  raw := fun o => if o = 1 then [10] else []
+  initial := fun o => if o = 1 then [none] else []
+  expanded := fun o => if o = 1 then [some 0] else []
+  resolve := fun sc n => if sc = 1 ∧ n = 10 then some 5 else none
+
+/-- The order of the two lookups matters: the code (expanded name first) keeps the class the name
+denoted at the class statement, as Python does; the swapped order picks the class the name is
+rebound to further down. -/
+theorem second_pass_swapped_order_counterexample :
+    finalOf exRebound 1 1 = [some 0] ∧ finalOfSwapped exRebound 1 1 = [some 5]
+    ∧ (secondPass exRebound (fun _ o => exRebound.scope o) 2 [1]).get 1 = some [some 0] := by
+  decide
+
 /-! ## 10. `Generic[T]` among the bases (`compute_mro.localbases` since commit 749fc3a)
 
 `typing`'s `__mro_entries__` removes a `Generic[...]` base when a later base is a subscripted
